@@ -283,6 +283,11 @@ func (f *Frame) checkGhostFrame(c *Contract, env *SpecEnv, st *State, retIdx int
 				allowed[b.M] = true
 			}
 		}
+		if x, ok := m.(*SCall); ok {
+			if id, ok := x.Fun.(*SIdent); ok && id.Name == "gint" {
+				allowed[entryEnv.gintCell(x)] = true
+			}
+		}
 	}
 	for _, k := range sortedKeys(in.dbCells) {
 		cl := in.dbCells[k]
@@ -302,6 +307,11 @@ func (f *Frame) checkGhostFrame(c *Contract, env *SpecEnv, st *State, retIdx int
 		} else if v, ok := in.initial[cl]; ok {
 			before = v
 		} else {
+			continue
+		}
+		if bs, isInt := before.(Sc); isInt {
+			goal := Eq(bs.T, now.(Sc).T)
+			f.oblige(st, "frame", fmt.Sprintf("%s#frame:ghost(%s)@ret%d", f.key, cl.Name, retIdx), o.Pos, goal, "ghost integer unchanged (not in modifies): "+cl.Name)
 			continue
 		}
 		x, y := before.(MapC), now.(MapC)
